@@ -10,7 +10,7 @@ Import-free (model files only).
 -/
 import KrillModel.Base.AMap
 import KrillModel.Ca.Issue
-namespace KM.Ca
+namespace KM.CaK
 open KM.Res KM.AMap
 
 /-- `UsedKeyState` -/
@@ -170,4 +170,4 @@ example :
     ({ issued := [(7, { res := [1, 2], limit := some [1, 2] })] } : ChildCerts).shrinkOverclaiming
       { res := [1] } 9 = .error .limit := by decide
 
-end KM.Ca
+end KM.CaK
